@@ -204,7 +204,7 @@ func (in *Interp) index(obj, key Value, node any) Value {
 		}
 		in.feat("meta:__index")
 		if f, ok := h.(*Function); ok {
-			vs := in.call(f, []Value{obj, key}, nil, false)
+			vs := in.call(f, []Value{obj, key}, node, false)
 			if len(vs) == 0 {
 				return nil
 			}
@@ -240,7 +240,7 @@ func (in *Interp) setIndex(obj, key, val Value, node any) {
 		}
 		in.feat("meta:__newindex")
 		if f, ok := h.(*Function); ok {
-			in.call(f, []Value{obj, key, val}, nil, false)
+			in.call(f, []Value{obj, key, val}, node, false)
 			return
 		}
 		obj = h
@@ -262,7 +262,7 @@ func (in *Interp) binMeta(event string, a, b Value, node any, what string) Value
 		in.rtError(node, what)
 	}
 	in.feat("meta:" + event)
-	vs := in.call(h, []Value{a, b}, nil, false)
+	vs := in.call(h, []Value{a, b}, node, false)
 	if len(vs) == 0 {
 		return nil
 	}
@@ -456,7 +456,7 @@ func (in *Interp) unop(op string, v Value, node any) Value {
 			in.rtError(node, "attempt to perform arithmetic")
 		}
 		in.feat("meta:__unm")
-		return first(in.call(h, []Value{v, v}, nil, false))
+		return first(in.call(h, []Value{v, v}, node, false))
 	case "~":
 		if n, ok := toNum(v); ok {
 			r, err := numref.Bnot(n)
@@ -473,7 +473,7 @@ func (in *Interp) unop(op string, v Value, node any) Value {
 			in.rtError(node, "attempt to perform bitwise operation")
 		}
 		in.feat("meta:__bnot")
-		return first(in.call(h, []Value{v, v}, nil, false))
+		return first(in.call(h, []Value{v, v}, node, false))
 	case "#":
 		switch x := v.(type) {
 		case string:
@@ -483,7 +483,7 @@ func (in *Interp) unop(op string, v Value, node any) Value {
 		case *Table:
 			if h := in.metaOf(x, "__len"); h != nil {
 				in.feat("meta:__len")
-				return first(in.call(h, []Value{v}, nil, false))
+				return first(in.call(h, []Value{v}, node, false))
 			}
 			return x.Border()
 		}
@@ -491,7 +491,7 @@ func (in *Interp) unop(op string, v Value, node any) Value {
 		if h == nil {
 			in.rtError(node, "attempt to get length")
 		}
-		return first(in.call(h, []Value{v}, nil, false))
+		return first(in.call(h, []Value{v}, node, false))
 	}
 	panic("luaref: unknown unary operator " + op)
 }
